@@ -1,30 +1,31 @@
 #!/bin/bash
-# tools/process_s3.sh <ID> [tier]   round-3 intake for the two changes a sub-agent left in /tmp/s3/<ID>/_seed/{A,B}:
-#   1. copy them to /tmp/s3/out/<ID>-{A,B}
-#   2. confirm each in the (now idle) authoring worktree /tmp/s3/<ID>: suite 77/77 with the change, demo fails
+# ROUND_DIR=/tmp/s4 SLOTS="2 3 4" tools/process_round.sh <ID> [tier]   intake for the two changes a sub-agent left in $ROUND_DIR/<ID>/_seed/{A,B}:
+#   1. copy them to $ROUND_DIR/out/<ID>-{A,B}
+#   2. confirm each in the (now idle) authoring worktree $ROUND_DIR/<ID>: suite 77/77 with the change, demo fails
 #      with it and passes without (tools/confirm_seed.sh, log /tmp/wt/confirm.log)
 #   3. run the property's check against each in a free scratch slot (tools/slot.sh); /repo is never touched
-# Result lines go to /tmp/s3/out/<ID>.result
+# Result lines go to $ROUND_DIR/out/<ID>.result
 set -u
+ROUND_DIR="${ROUND_DIR:-/tmp/s3}"
 ID="$1"; TIER="${2:-quick}"
-mkdir -p /tmp/s3/out /tmp/wt
+mkdir -p $ROUND_DIR/out /tmp/wt
 for X in A B; do
-  [ -d "/tmp/s3/$ID/_seed/$X" ] && rm -rf "/tmp/s3/out/$ID-$X" && cp -r "/tmp/s3/$ID/_seed/$X" "/tmp/s3/out/$ID-$X"
+  [ -d "$ROUND_DIR/$ID/_seed/$X" ] && rm -rf "$ROUND_DIR/out/$ID-$X" && cp -r "$ROUND_DIR/$ID/_seed/$X" "$ROUND_DIR/out/$ID-$X"
 done
-: > "/tmp/s3/out/$ID.result"
+: > "$ROUND_DIR/out/$ID.result"
 for X in A B; do
-  D="/tmp/s3/out/$ID-$X"
-  [ -f "$D/patch.diff" ] || { echo "$ID-$X: nothing delivered" >> "/tmp/s3/out/$ID.result"; continue; }
+  D="$ROUND_DIR/out/$ID-$X"
+  [ -f "$D/patch.diff" ] || { echo "$ID-$X: nothing delivered" >> "$ROUND_DIR/out/$ID.result"; continue; }
   CRATE=$(head -n 5 "$D/notes.md" | grep -m1 -i 'crate_dir' | sed 's/.*crate_dir:[ `]*\([^ `]*\).*/\1/')
   [ -n "$CRATE" ] || CRATE=passage-protocol
   FEAT=""
   grep -q 'verif-hooks' "$D/notes.md" "$D/demo.rs" 2>/dev/null && FEAT=verif-hooks
   export CARGO_BUILD_JOBS=6
-  CONFIRM_WT="/tmp/s3/$ID" DEMO_FEATURES="$FEAT" /verif/tools/confirm_seed.sh "$ID-$X" "$D" "$CRATE" >/dev/null 2>&1
+  CONFIRM_WT="$ROUND_DIR/$ID" DEMO_FEATURES="$FEAT" /verif/tools/confirm_seed.sh "$ID-$X" "$D" "$CRATE" >/dev/null 2>&1
   CONF=$(grep "\"seed\":\"$ID-$X\"" /tmp/wt/confirm.log | tail -n 1)
   # find a free slot
   while :; do
-    for N in 1 2 3 4; do
+    for N in ${SLOTS:-1 2 3 4}; do
       [ -f "/tmp/slot/$N.ready" ] || continue
       exec 9>"/tmp/slot/$N.lock"
       if flock -n 9; then
@@ -38,6 +39,6 @@ for X in A B; do
   {
     echo "== $ID-$X crate=$CRATE confirm=$CONF"
     echo "$OUT" | tail -n 12
-  } >> "/tmp/s3/out/$ID.result"
+  } >> "$ROUND_DIR/out/$ID.result"
 done
-cat "/tmp/s3/out/$ID.result"
+cat "$ROUND_DIR/out/$ID.result"
